@@ -5,7 +5,7 @@
 //!   read <hex>        every datum of the text: `Parser::new_flat` (what `(read)` uses) + the
 //!                     ExprKind -> SteelVal conversion of `(read)`; canonical datum dump
 //!   parse <hex>       `Parser::parse` (program level, with lowering): ok <n> | err ...
-//!   pretty <hex>      parse; print every tree with Display and to_pretty(60); parse again; compare
+//!   pretty <hex>      parse; print every tree with Display and to_pretty(60); parse again; compare the printed trees
 //!   write <datum>     build the value, `(write d port)` into a string port; hex of the text
 //!   roundtrip <datum> write, then `(read (open-input-string text))`, then `(equal? d back)`
 //!   eval <hex>        run the program text on a fresh-enough engine: ok <datum of last value> | err <first line> | panic ..
@@ -330,7 +330,11 @@ fn do_pretty(src: &str) -> String {
     ] {
         match Parser::parse(&text) {
             Ok(second) => {
-                if second == first {
+                // `==` on ExprKind compares source locations of lists, so compare the trees through
+                // their (location-free) printed form: same number of expressions, same text
+                let a: Vec<String> = first.iter().map(|e| format!("{}", e)).collect();
+                let b: Vec<String> = second.iter().map(|e| format!("{}", e)).collect();
+                if a == b {
                     res.push(format!("{}=same", name));
                 } else {
                     res.push(format!("{}=diff:{}", name, hex(text.as_bytes())));
